@@ -1,5 +1,7 @@
 /- C11 invariants, part 3: the defer stack of a running `With`; object ids in use are allocated -/
 import SemaModel.C11.Inv2
+set_option linter.unusedSimpArgs false
+set_option linter.unusedVariables false
 namespace Sema.C11
 
 /-! ### association lists -/
